@@ -542,6 +542,17 @@ def run_idlrt(run, cfg, G):
     diff_run(run, G, ["idlrt"], "idlrt", rt_nontrivial, "idlrt", known_key=idl_known_key)
     # the GetInterfaceDescription exchange end to end: service send_reply -> client proxy call -> parse()
     diff_run(run, G, ["idlx"], "idlx", x_nontrivial, "idlx")
+    # descriptions produced by the derive macros: the corpus of C16, compiled against /repo's macros; the interface
+    # assembled from every module's derived descriptions is rendered, parsed and rendered again (line kind intrort)
+    pregen_corpora(run, cfg, G)
+    if G["build_harness"](run, "zvc"):
+        old = run.binary
+        run.binary = "zvc"
+        diff_run(run, G, ["intro"], "intrort", intro_nontrivial, "derived-intrort",
+                 known_key=lambda line: "commented-enum-variant" if intro_known_key(line) else None)
+        run.binary = old
+    else:
+        run.notes.append("the derive corpus (zvc) does not build: derived descriptions not explored")
     # the explicit inline-enum witness (constructor-built only)
     lines = G["run_scenario"](run, ["idlrt"], extra=["--index", "999999999"]) or []
     wl = [l for l in (G["run_scenario"](run, ["idlrt"]) or []) if l.startswith("idlrt-inline-witness")]
@@ -643,11 +654,17 @@ def alias_nontrivial(inp, impl):
         ks.append("held-item-changed")
     if "same" in impl:
         ks.append("held-item-intact")
-    g = inp.split(" G ")[1].split(" O ")[0].split()
-    if len(g) > 1:
-        ks.append("replies-in-separate-reads")
-    if any(int(x) > 1 for x in g):
-        ks.append("several-replies-in-one-read")
+    g = inp.split(" G ")[1].split(" C ")[0].split()
+    c = inp.split(" C ")[1].split(" O ")[0].split()
+    if g == ["-"]:
+        ks.append("read-boundary-inside-a-reply")
+        if len(c) > 2:
+            ks.append("several-read-boundaries-inside-replies")
+    else:
+        if len(g) > 1:
+            ks.append("replies-in-separate-reads")
+        if any(int(x) > 1 for x in g):
+            ks.append("several-replies-in-one-read")
     if " X -" not in inp and " X " in inp:
         ks.append("stream-ended-by-general-error")
     return ks
@@ -671,7 +688,7 @@ def run_alias(run, cfg, G):
     def search():
         diff_run(run, G, ["alias"], "alias", alias_nontrivial, "alias-search", tier="thorough", seed_offset=1, record=False, known_key=alias_known_key)
     finish_corr(run, G, [search])
-    run.cov["rule"] = ("chains of 2..6 calls whose replies carry a borrowed &str (Reply<P<'a>>) of varying length, delivered in every grouping pattern drawn at random (all in one read ... one read each); every item yielded by the chain's reply stream is HELD while "
+    run.cov["rule"] = ("chains of 2..6 calls whose replies carry a borrowed &str (Reply<P<'a>>) of varying length, delivered in every grouping pattern drawn at random (all in one read ... one read each) and, every third case, with read boundaries drawn over the bytes (a read ending inside a reply, next to a reply boundary or anywhere, behind complete replies of the same read); every item yielded by the chain's reply stream is HELD while "
                        "the later ones are obtained, then compared with the copy taken when it was yielded; total size below the first growth step (no reallocation is provoked: reading through a dangling reference would be UB) except for all-buffered batches "
                        "with one reply of 0.3..12 KiB (growth happens before the first item is yielded); every sixth case one reply after the first is a general error (service error / undecodable frame) that ends the stream while earlier items are held; "
                        "the model predicts exactly which held items are overwritten; non-trivial = at least one held item intact or changed; distinct = distinct case lines")
@@ -707,6 +724,8 @@ def proxy_nontrivial(inp, impl):
     ks = []
     if inp.startswith("proxy "):
         ks.append("wire-" + inp.split(" FORM ")[1].split()[0])
+        if " FORM ext at" in inp:
+            ks.append("ext-call-ending-at-a-growth-step-of-the-write-buffer")
         if ":opt" in inp:
             ks.append("optional-parameter")
         if " N -" not in inp:
